@@ -117,23 +117,39 @@ func (jt *JSONTable) RenderTo(w io.Writer) error {
 		return err
 	}
 	needComma := false
+	pendingSeparators := 0 // seen since the last object; written once we know what follows
 	for _, r := range jt.AllRows() {
-		if needComma {
-			if _, err = io.WriteString(w, ",\n"); err != nil {
-				return err
-			}
-			needComma = false
-		}
 		if r.IsSeparator() {
+			if needComma {
+				pendingSeparators++
+				continue
+			}
 			if _, err = io.WriteString(w, "\n"); err != nil {
 				return err
 			}
 			continue
 		}
+		if needComma {
+			// only now do we know that another object follows the previous one
+			if _, err = io.WriteString(w, ",\n"); err != nil {
+				return err
+			}
+			needComma = false
+		}
+		for ; pendingSeparators > 0; pendingSeparators-- {
+			if _, err = io.WriteString(w, "\n"); err != nil {
+				return err
+			}
+		}
 		if err = jt.emitRowAsJSONObject(w, skipableColumns, keys, r.Cells()); err != nil {
 			return err
 		}
 		needComma = true
+	}
+	for ; pendingSeparators > 0; pendingSeparators-- {
+		if _, err = io.WriteString(w, "\n"); err != nil {
+			return err
+		}
 	}
 	// We assume need newline prefix because no comma+newline from new row,
 	// but if the table is empty, this will result in "[\n\n]\n" which is
